@@ -523,7 +523,8 @@ def run_model_shard(prop: str, shard: Dict[str, Any], rep: Report) -> None:
         mon.report(None, P.call("synthetic", rng, tier))
 
     twin = None
-    if prop == "C08" and name in DENSE_SPARSE:
+    if prop == "C08" and name in DENSE_SPARSE and "make_id" not in cfg and "custom" not in cfg:
+        # (configurations built through jumanji.make or with a user reward function have no "other" reward function to swap in)
         c2 = dict(cfg)
         c2["reward"] = "dense" if cfg.get("reward") == "sparse" else "sparse"
         twin = Runner(name, c2)
